@@ -441,6 +441,13 @@ func (a *Analyzer) buildDependencies(info *ConstructorInfo) []*Dependency {
 			dep.Type = param.ElemType
 		}
 
+		// A field with a group tag is filled from the group; a name tag on the
+		// same field is ignored when the field is resolved, so it is not part
+		// of the dependency's identity either
+		if param.Group != "" {
+			dep.Key = nil
+		}
+
 		deps = append(deps, dep)
 	}
 
